@@ -330,6 +330,9 @@ func (st *state) process(f *ssa.Function) {
 				if st.isT(v.Map) {
 					st.report(f, in, "map-update", "map update in "+name, v.Map)
 				}
+				if gl := globalBase(v.Map); gl != nil && inModuleGlobal(st, gl) && f.Name() != "init" && !strings.HasPrefix(f.Name(), "init#") {
+					st.findings[st.cfg.Pos(in.Pos())+"global"] = Finding{Fn: f, Pos: st.cfg.Pos(in.Pos()), Kind: "global-store", What: "update of the package-level map " + gl.Name() + " in " + name}
+				}
 			case ssa.CallInstruction:
 				cc := v.Common()
 				if b, ok := cc.Value.(*ssa.Builtin); ok {
@@ -343,6 +346,32 @@ func (st *state) process(f *ssa.Function) {
 				}
 				if cc.IsInvoke() {
 					continue
+				}
+				// process-wide state touched on a read path: a package-level atomic, sync.Map or counter mutated through
+				// its methods (the race detector stays silent, the result still depends on what else runs)
+				if g, ok := cc.Value.(*ssa.Function); ok && !st.cfg.InModule(g) && g.Pkg != nil && len(cc.Args) > 0 {
+					pk := g.Pkg.Pkg.Path()
+					mut := false
+					switch {
+					case pk == "sync/atomic":
+						switch g.Name() {
+						case "Add", "Store", "Swap", "CompareAndSwap", "And", "Or":
+							mut = true
+						}
+						if strings.HasPrefix(g.Name(), "Add") || strings.HasPrefix(g.Name(), "Store") || strings.HasPrefix(g.Name(), "Swap") || strings.HasPrefix(g.Name(), "CompareAndSwap") {
+							mut = true
+						}
+					case pk == "sync" && g.Signature.Recv() != nil && strings.HasSuffix(g.Signature.Recv().Type().String(), "sync.Map"):
+						switch g.Name() {
+						case "Store", "LoadOrStore", "LoadAndDelete", "Delete", "Swap", "CompareAndSwap", "CompareAndDelete", "Clear":
+							mut = true
+						}
+					}
+					if mut {
+						if gl := globalBase(cc.Args[0]); gl != nil && inModuleGlobal(st, gl) {
+							st.findings[st.cfg.Pos(in.Pos())+"global"] = Finding{Fn: f, Pos: st.cfg.Pos(in.Pos()), Kind: "global-store", What: g.Name() + " on the package-level variable " + gl.Name() + " in " + name}
+						}
+					}
 				}
 				if g, ok := cc.Value.(*ssa.Function); ok && !st.cfg.InModule(g) {
 					cn := strings.TrimSuffix(g.String(), "")
@@ -518,4 +547,42 @@ func elemType(t types.Type) types.Type {
 		return u.Elem()
 	}
 	return t
+}
+
+// globalBase returns the package-level variable v is the address of, a field / element address of, or a load of.
+func globalBase(v ssa.Value) *ssa.Global {
+	for i := 0; i < 8 && v != nil; i++ {
+		switch t := v.(type) {
+		case *ssa.Global:
+			return t
+		case *ssa.FieldAddr:
+			v = t.X
+		case *ssa.IndexAddr:
+			v = t.X
+		case *ssa.UnOp:
+			v = t.X
+		default:
+			return nil
+		}
+	}
+	return nil
+}
+
+// inModuleGlobal: the variable belongs to a package some in-module function lives in (approximated by the package
+// of the function being analysed or any visited one).
+func inModuleGlobal(st *state, gl *ssa.Global) bool {
+	if gl.Pkg == nil {
+		return false
+	}
+	for f := range st.visited {
+		if f.Pkg == gl.Pkg && st.cfg.InModule(f) {
+			return true
+		}
+	}
+	for _, m := range gl.Pkg.Members {
+		if fn, ok := m.(*ssa.Function); ok {
+			return st.cfg.InModule(fn)
+		}
+	}
+	return false
 }
